@@ -47,6 +47,11 @@ CHECKS = {
          "Clear path: for N in {8,16,32}, extension factors 1..8, every table length dividing the domain, scales 1..6, three radices, lookup_table_set is compared with the definition at every coefficient and every rotation k in [0, 2D) in both directions limb-exactly with the ring model (5.3M calls per backend thorough). Blind path on four backends: N_glwe in {32,64}, 13 (n_lwe, block, distribution) shapes, extension 1/2/4, both directions, several key seeds and LWE radices, every message for p=1..5, plus crafted noiseless samples driving every mask value through the accumulator; the modulus switch is recomputed from the definition, every result coefficient must equal the rotated table within a derived worst-case bound. Four defects found this way were repaired.",
          "Trusted: ring model, phase oracle, the read-only LookupTable accessor hook. f(m) on the constant coefficient is only demanded where the error budget is below half a step.",
          "3/C14"),
+ "C15": ("model_checking",
+         "explicit-state search (E2, stateright) over programs of word operations and re-preparation executed on the real library, plus bounded exhaustive enumeration (E1) of bit indices, (start, length) ranges, shift amounts, splice positions and boundary words; oracle = plain u32/u16/u8 semantics and exact phase under clear keys",
+         "Register-file model with two encrypted words: every program of Prepare / two-word operation / Identity actions up to the depth bound (46 actions per state, depth 2 quick, 3 thorough) is run on the real circuit bootstrapping + BDD evaluation; every transition compares the written ciphertext at every coefficient (exact phase) and every prepared bit through a CMux with the plain Rust result. Enumerated exhaustively around it: the documented bit layout for every boundary word and width, get_bit at every index, splice/sext/zero_byte at every (dst, src), sll/srl/sra for every shift amount 0..63, partial preparation for every (start, length) through all four entry points, blind selection / retrieval for every index and size, circuit bootstrapping in constant and exponent mode with every GGSW cell decrypted. Four defects found this way were repaired.",
+         "Trusted: clear-key phase oracle, the u32 reference semantics (RISC-V word operations). Parameter sets are reduced (N=128..256) so that the whole space is enumerable; the decision threshold margin observed is reported in the evidence. Random operand pairs are only an addition to the boundary classes, never the deciding part.",
+         "3/C15"),
  "C18": ("fault_enumeration",
          "exhaustive fault enumeration (E4): every truncation point and every header field x boundary dictionary of every serialisable type, on fresh receivers, plus round trips into receivers of all relative capacities",
          "All 30 ReaderFrom/WriterTo types (found by a run-time source scan; a type without a driver is a machinery error) are serialised over small parameter grids; round trips into same / larger / smaller receivers; every prefix length of every stream; header fields located by tracing the real deserialiser's read requests, by differential writes and by treating every aligned word as a field, each replaced by 14+ dictionary values (0, 1, v+-1, 2^31, 2^32-1, 2^61, 2^63, 2^64-1, smallest overflowing products ...). After Ok or Err the receiver must be consistent with its buffer, Err must leave metadata unchanged, nothing may panic (overflow checks on) or request absurd allocations. Four defect classes repaired, one recorded.",
